@@ -28,7 +28,7 @@ from simkit.driver import bump, new_result, shrink_list  # noqa: E402
 from simkit.fs import FaultPlan, FaultyPath, SimFS  # noqa: E402
 from simkit.loop import SimDeadlock, SimLoop, SimStepCap, run_inline  # noqa: E402
 from simkit.rng import Rng, digest  # noqa: E402
-from simkit.threads import SimLock, SimThreads  # noqa: E402
+from simkit.threads import SimLock, SimThreads, restore_locks, simulate_locks  # noqa: E402
 
 import liquid  # noqa: E402
 import liquid.builtin.loaders.file_system_loader as fsl_mod  # noqa: E402
@@ -1081,6 +1081,7 @@ class C23:
             env = Environment(extra=True, loader=self._build_loader(sc, w, True), globals=dict(sc["env_globals"]))
             cache = env.loader.cache
             cap = sc["capacity"]
+            undo_locks = simulate_locks(cache) + simulate_locks(env.loader)
             SimLock.sim = sim
 
             def cache_key_of(op):
@@ -1211,6 +1212,10 @@ class C23:
         finally:
             lru_mod.Lock = saved_lock
             SimLock.sim = None
+            try:
+                restore_locks(undo_locks)
+            except NameError:
+                pass
         bump(st, "runs.threads")
         bump(st, "runs.loader." + sc["loader"])
         bump(st, "thread.switches", sim.switches)
